@@ -138,7 +138,8 @@ class App(object):
 
     def __init__(self, handler):
         from clastic import Application, Middleware, Route, GET, POST, render_json
-        from clastic.middleware import SimpleProfileMiddleware
+        from clastic.middleware import SimpleProfileMiddleware, GzipMiddleware, HTTPCacheMiddleware
+        from clastic.middleware.stats import StatsMiddleware
         from clastic import errors
         from werkzeug.wrappers import Response
         self.errors = errors
@@ -244,6 +245,8 @@ class App(object):
                             POST('/item', lambda: Response('posted')), Route('/sum/<nums+int>', ep_nums),
                             Route('/num/<n:int>', ep_n), Route('/flt/<n?float>/x', ep_n), Route('/br/', ep_resp),
                             Route('/prof', ep_resp, middlewares=[SimpleProfileMiddleware()]),
+                            # the same endpoint behind the stock middlewares that look at every outcome
+                            Route('/st', ep_resp, middlewares=[StatsMiddleware(), GzipMiddleware(), HTTPCacheMiddleware()]),
                             Route('/jsonbad', lambda: {'o': object(), 'g': (x for x in [1])}, render_json),
                             Route('/jsonbad2', lambda: {1: object()}, render_json)],
                            middlewares=[mk(0), mk(1), mk(2)], **kw)
@@ -463,7 +466,7 @@ def layer_a_items(tier):
     for handler in HANDLERS:
         for where in positions():
             # '/item' is followed by a method-restricted sibling route on the same path
-            for route in ('/r', '/n', '/item'):
+            for route in ('/r', '/n', '/item', '/st'):
                 items.append((handler, where, route))
     return items
 
@@ -493,11 +496,15 @@ def shard(tier, i, n, seed):
         if k % 37 == i % 37:
             acc.sample({'handler': handler, 'where': where, 'route': route, 'behaviours': len(behs)})
     # 404 / 405 under every handler and Accept
+    import itertools as _it
+    from clastic import application as _ca
     for hk, handler in enumerate(HANDLERS):
         if (hk + 7) % n != i:
             continue
         A = apps.get(handler) or App(handler)
-        for accept in ACCEPTS:
+        for ak, accept in enumerate(ACCEPTS):
+            # a server that has been up for a long time: the process-wide request counter is past 2**32 / 2**64
+            _ca._REQ_ID_ITER = _it.count((0, 2 ** 32 - 5, 2 ** 64 - 5)[ak % 3])
             for m, p, want in (('GET', '/nope', 404), ('PUT', '/item', 405), ('GET', '/nope/<b>', 404),
                                ('GET', '/sum/1//2', (200, 404)), ('GET', '/sum/1/x', 404), ('GET', '/num/' + '9' * 5000, (200, 404)),
                                ('GET', '/num/+ 1', 404), ('GET', '/flt/1e400/x', (200, 404)), ('GET', '/flt//x', (200, 404)),
